@@ -570,6 +570,11 @@ def run_process(
                         auto_ctx.__enter__()
                         trace.log("auto_context_entered_before_fit")
                     A.fit(Samples(x_train, parameters=model.target.parameters, xp=xp_of(scn["xp"])), **fit_kw)
+                    if ck.get("refit_after_earlier_call") and resume is not None:
+                        # a restarted program that rebuilds its proposal itself (bytes / dict / path routes) repeats the fits the
+                        # interrupted one had made: "the same sampling arguments" includes the proposal
+                        scn2 = {**scn, "train": {**scn["train"], "shift": -float(scn["train"]["shift"]), "widen": 0.8 * float(scn["train"]["widen"])}}
+                        A.fit(Samples(training_samples(scn2), parameters=model.target.parameters, xp=xp_of(scn["xp"])), **fit_kw)
                 res.aspire = A
                 res.flow_fingerprint = getattr(A.flow, "fingerprint", None)
 
@@ -686,6 +691,13 @@ def run_process(
                                     # in the file and in the context's bookkeeping)
                                     A.sample_posterior(12, sampler="importance")
                                     trace.log("earlier_call_in_context_done")
+                                    if ck.get("refit_after_earlier_call"):
+                                        # ... and the proposal is refitted (other data, default overwrite=False) before the
+                                        # judged run: the file must end up holding the proposal this run's particles are weighted under
+                                        scn2 = {**scn, "train": {**scn["train"], "shift": -float(scn["train"]["shift"]), "widen": 0.8 * float(scn["train"]["widen"])}}
+                                        A.fit(Samples(training_samples(scn2), parameters=model.target.parameters, xp=xp_of(scn["xp"])),
+                                              **dict(scn.get("fit_kwargs") or {}))
+                                        trace.log("refit_in_context_done")
                                 return A.sample_posterior(scn["n_samples"], sampler=sampler_name, **kw)
                         return A.sample_posterior(scn["n_samples"], sampler=sampler_name, **kw)
                     if scn.get("api") == "base_smc":
